@@ -126,6 +126,10 @@ def sweep(tier: str) -> Sweep:
     L = 4 if tier == "quick" else 5
     for c, (cls, value, ds, lits) in SUBJECTS.items():
         atoms = ds + ["%Q", "%%", "%"] + lits
+        # a '%' in front of a character that is not a letter (digit, underscore, space, punctuation) is literal for both sides
+        for tail in ("5", "_", "-5", "-_", " ", "-", "!", "!5", "1a", "_n", "é", "=", "#"):
+            for pre, post in (("", ""), (ds[0], ""), ("", ds[0]), ("%%", ds[0]), (ds[0] + "_", "_x")):
+                judge(sw, c, cls, value, pre + "%" + tail + post)
         for n in range(1, L + 1):
             combos = list(itertools.product(atoms, repeat=n))
             if tier == "quick" and n == 4:
